@@ -189,6 +189,11 @@ func (d *OrderedDaemon) BackgroundWorker(name string, handler WorkerFunc, order 
 	d.lock.Lock()
 	defer d.lock.Unlock()
 
+	// the daemon might have been stopped while we were waiting for the lock
+	if d.IsStopped() {
+		return ErrDaemonAlreadyStopped
+	}
+
 	exWorker, workerExistsAlready := d.workers[name]
 	if workerExistsAlready {
 		if !d.running.Load() {
